@@ -516,7 +516,45 @@ struct Ctx<'a> {
     direct_failures: Vec<Value>,
     syn_schema: &'a graphql_type_system::Schema<std::borrow::Cow<'a, str>, nitrogql_ast::base::Pos>,
     cfg: Config,
+    /// the loader driver (harness/c12-loader), every how-many-th document is run through it, and the source
+    /// files of the next document pushed (root path, [(path, source)])
+    loader_exe: Option<String>,
+    loader_every: usize,
+    loader_seen: usize,
+    project: Option<(String, Vec<(String, String)>)>,
 }
+
+/// what the loader's emit_js did for one project: Ok(js text) / Err(result string); None = the child process
+/// died (a panic inside an extern "C" function) ; Some(Err((stage, msg))) for a failure before emit_js
+enum LoaderRun { Js(String), EmitErr(String), Earlier(String, String), Died }
+fn run_loader(exe: &str, root: &str, files: &[(String, String)]) -> LoaderRun {
+    use std::io::Write as _;
+    use std::process::{Command, Stdio};
+    let mut fm = serde_json::Map::new();
+    for (p, s) in files { fm.insert(p.clone(), Value::String(s.clone())); }
+    let req = json!({"root": root, "files": fm}).to_string();
+    let Ok(mut child) = Command::new(exe).stdin(Stdio::piped()).stdout(Stdio::piped()).stderr(Stdio::null()).spawn() else { return LoaderRun::Died };
+    { let mut si = child.stdin.take().unwrap(); let _ = si.write_all(req.as_bytes()); }
+    let Ok(out) = child.wait_with_output() else { return LoaderRun::Died };
+    let line = String::from_utf8_lossy(&out.stdout);
+    match serde_json::from_str::<Value>(line.trim()) {
+        Ok(v) if v["ok"] == true => LoaderRun::Js(v["js"].as_str().unwrap_or("").to_string()),
+        Ok(v) if v["stage"] == "emit_js" => LoaderRun::EmitErr(v["error"].as_str().unwrap_or("").to_string()),
+        Ok(v) => LoaderRun::Earlier(v["stage"].as_str().unwrap_or("").to_string(), v["error"].as_str().unwrap_or("").to_string()),
+        Err(_) => LoaderRun::Died,
+    }
+}
+/// the runtime documents in a module text: every definition is written as `[export ]const NAME = <json>;` on one
+/// line (json-writer escapes every control character, so the JSON has no line break)
+fn js_text_chunks(js: &str) -> Vec<String> {
+    js.split('\n').filter_map(|l| {
+        let l = l.strip_prefix("export ").unwrap_or(l);
+        let r = l.strip_prefix("const ")?;
+        let i = r.find(" = ")?;
+        Some(r[i + 3..].strip_suffix(';')?.to_string())
+    }).collect()
+}
+
 impl<'a> Ctx<'a> {
     fn bump(&mut self, k: &str) { *self.stats.entry(k.to_string()).or_insert(0) += 1; }
     fn add(&mut self, k: &str, n: u64) { *self.stats.entry(k.to_string()).or_insert(0) += n; }
@@ -597,21 +635,52 @@ impl<'a> Ctx<'a> {
         let classes: Vec<&str> = vec![];
         if accepted && js.is_err() { self.bump("ACCEPTED_DOCUMENT_PRINTER_PANIC"); }
         let emitted: usize = js.as_ref().map(|v| v.iter().map(|s| s.len()).sum()).unwrap_or(0);
+        let project = self.project.take();
         if whole.len() > 24_000 || emitted > 300_000 { self.bump("skipped_too_large_for_coqc"); return; }
         let mut table = Table::default();
         let (js_t, ts_t, whole_t) = (table.outcome(&js), ts.as_ref().map(|o| table.outcome(o)), table.text(&whole));
-        let term = format!("CDoc {} {} dict_ {} {} {} {} {}", coq_bool(accepted), strip_positions(&ast_coq::opdoc(doc)),
+        // 4. the loader route end to end: the real initiate_task / load_file / emit_js on the source files, in a
+        //    child process (harness/c12-loader)
+        let mut loader_descr = Value::Null;
+        let ld_t: Option<String> = match (&self.loader_exe, project) {
+            (Some(exe), Some((root, files))) if !edited && { self.loader_seen += 1; self.loader_seen % self.loader_every == 0 } => {
+                match run_loader(exe, &root, &files) {
+                    LoaderRun::Js(text) => {
+                        self.bump("loader_emit_js:ok");
+                        // the runtime documents in the module text are those print_js_for_operation_document writes for
+                        // the document as this harness parsed / resolved it (the text around them may differ: the loader
+                        // parses every file with file index 0, so imported fragments are exported there -- C14's subject)
+                        if let Ok(ops) = &js_ops { if json_chunks(ops) != js_text_chunks(&text) {
+                            self.direct_failures.push(json!({"what": "the runtime documents in the loader's emit_js text differ from those print_js_for_operation_document writes for the same sources", "classes": [], "document": text.chars().take(3000).collect::<String>()}));
+                        } }
+                        let chunks = js_text_chunks(&text);
+                        loader_descr = json!({"ok": chunks});
+                        let v: Vec<String> = chunks.iter().map(|c| table.text(c)).collect();
+                        Some(format!("(LOk {})", coq_list(&v, |s| s.clone())))
+                    }
+                    LoaderRun::EmitErr(m) => { self.bump("loader_emit_js:err"); loader_descr = json!({"error": m}); Some(format!("(LErr {})", coq_str(&m))) }
+                    LoaderRun::Earlier(stage, m) => { self.bump(&format!("loader_failed_before_emit_js:{stage}")); loader_descr = json!({"stage": stage, "error": m}); None }
+                    LoaderRun::Died => { self.bump("LOADER_PROCESS_DIED"); loader_descr = json!({"died": true}); Some("(LPanic [])".to_string()) }
+                }
+            }
+            _ => None,
+        };
+        let term = format!("CDoc {} {} dict_ {} {} {} {} {} {}", coq_bool(accepted), strip_positions(&ast_coq::opdoc(doc)),
             coq_list(&table.pieces, |p| coq_ztext(p)), js_t,
-            coq_opt(&ts_t, |s| s.clone()), whole_t, coq_list(&names, |ns| coq_list(ns, |n| coq_str(n))));
+            coq_opt(&ts_t, |s| s.clone()), whole_t, coq_opt(&ld_t, |s| s.clone()), coq_list(&names, |ns| coq_list(ns, |n| coq_str(n))));
         let short = |o: &Outcome| match o { Ok(ts) => json!({"ok": ts}), Err(m) => json!({"panic": m}) };
         self.cases.push(term, json!({"stream": stream, "document": text, "ast_edited": edited, "accepted_by_check": accepted,
-            "js": short(&js), "ts": ts.as_ref().map(short), "whole": whole, "fragment_names": names, "classes": classes}));
+            "js": short(&js), "ts": ts.as_ref().map(short), "whole": whole, "loader_emit_js": loader_descr, "fragment_names": names, "classes": classes}));
     }
 
     fn push_text(&mut self, stream: &str, text: String, with_schema: bool) {
         let text = leak(text);
         match catch(|| load_operation(text)) {
-            Ok(Ok(doc)) => { let s = self.syn_schema; self.push_doc(stream, text, &doc, if with_schema { Some(s) } else { None }, false); }
+            Ok(Ok(doc)) => {
+                let s = self.syn_schema;
+                self.project = Some(("/p/main.graphql".to_string(), vec![("/p/main.graphql".to_string(), text.to_string())]));
+                self.push_doc(stream, text, &doc, if with_schema { Some(s) } else { None }, false);
+            }
             Ok(Err(e)) => { self.bump("unparsable_generated_text"); if self.stats["unparsable_generated_text"] < 4 { eprintln!("UNPARSABLE {e}\n{text}"); } }
             Err(p) => { self.bump(&format!("parser_panic:{p}")); }
         }
@@ -647,6 +716,8 @@ fn main() {
         cases: Cases::new(&format!("From V Require Import Base.Util Gql.Ast C12.Model C12.Spec C12.Corr.\n{}", coq_dict_def()), "case", "agree", "holds", 20),
         distinct: HashSet::new(), nontrivial: HashSet::new(), stats: BTreeMap::new(), direct_failures: vec![],
         syn_schema: &syn_schema, cfg: Config::default(),
+        loader_exe: args.extra.iter().position(|a| a == "--loader").and_then(|i| args.extra.get(i + 1)).cloned(),
+        loader_every: if thorough { 3 } else { 1 }, loader_seen: 0, project: None,
     };
 
     // replay of one document (./verify C12 --replay <file>): only that document
@@ -693,7 +764,10 @@ fn main() {
             let d = gen_doc(&mut rng, &s, &cfg);
             let text = leak(d.render());
             match catch(|| load_operation(text)) {
-                Ok(Ok(doc)) => cx.push_doc("gen.rs", text, &doc, Some(&ts), false),
+                Ok(Ok(doc)) => {
+                    cx.project = Some(("/p/main.graphql".to_string(), vec![("/p/main.graphql".to_string(), text.to_string())]));
+                    cx.push_doc("gen.rs", text, &doc, Some(&ts), false)
+                }
                 _ => cx.bump("unparsable_generated_text"),
             }
         }
@@ -779,6 +853,7 @@ fn main() {
         match r {
             Ok(Ok(doc)) => {
                 let text = format!("# file /p/main.graphql\n{main_text}# file /p/lib.graphql\n{lib_text}");
+                cx.project = Some(("/p/main.graphql".to_string(), vec![("/p/main.graphql".to_string(), main_text.to_string()), ("/p/lib.graphql".to_string(), lib_text.to_string())]));
                 cx.push_doc("imported", leak(text), &doc, Some(&syn_schema), false);
             }
             _ => cx.bump("import_resolution_failed"),
